@@ -288,7 +288,7 @@ impl Property for C01 {
                         0 => Op::Cont,
                         6 => Op::ContStale,
                         1 => Op::Enc { label: [0u8, 1, 2, 3][rng.below(4)], outcome: Outcome::Fragments, ext: false },
-                        _ => random_op(&mut rng, false),
+                        _ => random_op(&mut rng, true),
                     };
                     ops.push(op);
                     if !ex.step(&op, 0, &|| String::new(), &mut sink, &replay) {
